@@ -104,6 +104,13 @@ class C14Bounded(Bounded):
             ev += 1
             if view(p) != view(q):
                 fail(f"empty pipeline / None / sum() start is not an identity: {view(p)} vs {view(q)}", [])
+        # two different pipelines with identically configured steps: every step is kept
+        for mk2 in (lambda: make(0) + make(0), lambda: ProcessingPipelineResolver({"a": lambda: make(0), "b": lambda: make(0)}).resolve(["a", "b"])):
+            ev += 1
+            nontriv += 1
+            v2 = view(mk2())
+            if [len(v2[0]), len(v2[1]), len(v2[2])] != [4, 2, 2]:
+                fail(f"composition of two pipelines with identically configured steps drops steps: {v2[:3]}", ["equal steps"])
         # backend order and stages: backend pipeline, then user, then output format; postprocessing on every query; finalizers once
         from sigma.backends.test import TextQueryTestBackend
         from sigma.collection import SigmaCollection
@@ -126,5 +133,19 @@ class C14Bounded(Bounded):
         if out != want:
             fail(f"stage order: output {out!r} != {want!r} (transformations, then conversion, postprocessing per query in item order, finalizers once in order)", [])
         samples.append({"backend_output": out})
-        return {"evaluations": ev, "distinct_nontrivial": nontriv, "failures": fails, "bound": f"1..{n_max} pipelines, priorities in {{0,1}}^n, all permutations of the argument list; bracketings of 2..4; one backend stage trace",
+        # the stage order backend, user, output format does not depend on the priorities of the three pipelines (priority orders the
+        # pipelines given to the resolver, i.e. inside the user stage)
+        for pb, pu, pf in itertools.product((-5, 0, 10), repeat=3):
+            class B2(TextQueryTestBackend):
+                backend_processing_pipeline = make(7, pb)
+                output_format_processing_pipeline = {"default": make(9, pf), "str": make(9, pf)}
+            b2 = B2(make(8, pu))
+            ev += 1
+            nontriv += 1
+            out2 = b2.convert(SigmaCollection.from_yaml(RULE + "---" + RULE.replace("title: t", "title: u")))
+            ids = [x.identifier for x in b2.last_processing_pipeline.items]
+            out2 = out2[0] if isinstance(out2, list) and len(out2) == 1 else out2
+            if ids != ["i7", "ph7", "i8", "ph8", "i9", "ph9"] or out2 != want:
+                fail(f"stage order with priorities backend {pb}, user {pu}, output format {pf}: items {ids}, output {out2!r} (expected backend, user, output format: {want!r})", [pb, pu, pf])
+        return {"evaluations": ev, "distinct_nontrivial": nontriv, "failures": fails, "bound": f"1..{n_max} pipelines, priorities in {{0,1}}^n, all permutations of the argument list; bracketings of 2..4; backend stage trace x priorities {-5,0,10}^3; pipelines with identically configured steps",
                 "rule": "every (priority vector, permutation) is distinct; non-trivial = more than one pipeline", "samples": samples, "exhaustive": True}
